@@ -845,6 +845,20 @@ struct static_array<T, ::boost::multi::dimensionality_type{0}, Alloc>  // NOLINT
 	friend constexpr auto operator==(static_array const& self, static_array const& other) -> bool { return *self.base_ == *other.base_; }
 	friend constexpr auto operator!=(static_array const& self, static_array const& other) -> bool { return !(*self.base_ == *other.base_); }
 
+	// constructors obtain the storage in their member initializers; if the construction of the element throws, the
+	// destructor will not run: return the storage (same as in the general case)
+	template<class ConstructElements>
+	void construct_or_release_(ConstructElements&& construct_elements) {
+		try {
+			std::forward<ConstructElements>(construct_elements)();
+		} catch(...) {
+			if(this->num_elements()) {
+				multi::allocator_traits<allocator_type>::deallocate(this->alloc(), this->base_, static_cast<typename multi::allocator_traits<allocator_type>::size_type>(this->num_elements()));
+			}
+			throw;
+		}
+	}
+
 	static_array(
 		typename static_array::extensions_type const& extensions,
 		typename static_array::element const& elem, allocator_type const& alloc
@@ -858,7 +872,7 @@ struct static_array<T, ::boost::multi::dimensionality_type{0}, Alloc>  // NOLINT
 		  ),
 		  extensions
 	  ) {
-		uninitialized_fill(elem);
+		construct_or_release_([&] { uninitialized_fill(elem); });
 	}
 
 	static_array(typename static_array::element_type const& elem, allocator_type const& alloc)
@@ -875,7 +889,7 @@ struct static_array<T, ::boost::multi::dimensionality_type{0}, Alloc>  // NOLINT
 			}
 			adl_copy                    (                       other.base(), other.base() + other.num_elements(), this->base());
 			#else
-			adl_alloc_uninitialized_copy(static_array::alloc(), other.base(), other.base() + other.num_elements(), this->base());
+			construct_or_release_([&] { adl_alloc_uninitialized_copy(static_array::alloc(), other.base(), other.base() + other.num_elements(), this->base()); });
 			#endif
 		}
 	}
@@ -889,7 +903,7 @@ struct static_array<T, ::boost::multi::dimensionality_type{0}, Alloc>  // NOLINT
 		}
 		adl_copy_n                    (                       other.data_elements(), other.num_elements(), this->data_elements());
 		#else
-		adl_alloc_uninitialized_copy_n(static_array::alloc(), other.data_elements(), other.num_elements(), this->data_elements());
+		construct_or_release_([&] { adl_alloc_uninitialized_copy_n(static_array::alloc(), other.data_elements(), other.num_elements(), this->data_elements()); });
 		#endif
 	}
 
@@ -916,7 +930,7 @@ struct static_array<T, ::boost::multi::dimensionality_type{0}, Alloc>  // NOLINT
 		typename static_array::element_type const&         elem
 	)  // 2
 	: array_alloc{}, ref(static_array::allocate(static_cast<typename multi::allocator_traits<allocator_type>::size_type>(typename static_array::layout_t{extensions}.num_elements()), nullptr), extensions) {
-		uninitialized_fill(elem);
+		construct_or_release_([&] { uninitialized_fill(elem); });
 	}
 
 	static_array() : static_array(multi::iextensions<0>{}) {}  // TODO(correaa) a noexcept will force a partially formed state for zero dimensional arrays
@@ -936,7 +950,7 @@ struct static_array<T, ::boost::multi::dimensionality_type{0}, Alloc>  // NOLINT
 		}
 		adl_copy_n                    (                       &single, 1, this->data_elements());
 		#else
-		adl_alloc_uninitialized_copy_n(static_array::alloc(), &single, 1, this->data_elements());
+		construct_or_release_([&] { adl_alloc_uninitialized_copy_n(static_array::alloc(), &single, 1, this->data_elements()); });
 		#endif
 	}
 
@@ -957,7 +971,7 @@ struct static_array<T, ::boost::multi::dimensionality_type{0}, Alloc>  // NOLINT
 
 	explicit static_array(typename static_array::extensions_type const& extensions, allocator_type const& alloc)  // 3
 	: array_alloc{alloc}, ref(static_array::allocate(typename static_array::layout_t{extensions}.num_elements()), extensions) {
-		uninitialized_value_construct();
+		construct_or_release_([&] { uninitialized_value_construct(); });
 	}
 	explicit static_array(typename static_array::extensions_type const& extensions)  // 3
 	: static_array(extensions, allocator_type{}) {
@@ -970,18 +984,20 @@ struct static_array<T, ::boost::multi::dimensionality_type{0}, Alloc>  // NOLINT
 
 	static_array(static_array const& other)  // 5b
 	: array_alloc{other.get_allocator()}, ref{static_array::allocate(other.num_elements(), other.data_elements()), {}} {
-		uninitialized_copy(other.data_elements());
+		construct_or_release_([&] { uninitialized_copy(other.data_elements()); });
 	}
 
 	static_array(static_array&& other) noexcept(false)  // TODO(correaa) detect if allocation is no except
 	: array_alloc{other.get_allocator()}
 	, ref(static_array::allocate(static_cast<typename multi::allocator_traits<allocator_type>::size_type>(other.num_elements()), other.data_elements()), other.extensions()) {
-		adl_alloc_uninitialized_move_n(
-			this->alloc(),
-			other.data_elements(),
-			other.num_elements(),
-			this->data_elements()
-		);
+		construct_or_release_([&] {
+			adl_alloc_uninitialized_move_n(
+				this->alloc(),
+				other.data_elements(),
+				other.num_elements(),
+				this->data_elements()
+			);
+		});
 	}
 
  protected:
